@@ -1,5 +1,7 @@
 package main
 
+import redisemu "github.com/jimsnab/go-redisemu"
+
 // C06 / C07: keyspace discipline and expiry. Both are built from one matrix: every command
 // template of the emulator applied to a target key of every type (and a missing key).
 
@@ -135,6 +137,9 @@ func specC06(tier string) *SeqSpec {
 		c("GETDEL", "ks"), c("EXPIRE", "kl", "0"), c("PEXPIRE", "kh", "20000"), c("PERSIST", "kz"), c("SORT", "kl", "ALPHA", "STORE", "kd"), c("SORT", "kz", "ALPHA", "STORE", "kd"), c("BITOP", "AND", "ks", "kn", "kn2"),
 		c("SET", "kl", "now-a-string"), c("LPUSH", "kn", "x"), c("HSET", "kn", "f", "v"), c("SADD", "kn", "x"),
 	}
+	// the key space itself as a table with a history: fill, drain in four orders, churn with colliding names
+	// (the removal counter and the table size go through every state; KEYS / DBSIZE / every key after each step)
+	s.Long = dictHistories("SET", "DEL", "", true, tier)
 	s.Depth = 1
 	if tier == "thorough" {
 		s.Depth = 2
@@ -236,6 +241,58 @@ func specC07(tier string) *SeqSpec {
 		adv(1), adv(3), adv(100000), c("PERSIST", "ks"), c("PERSIST", "kl"), c("PEXPIRE", "ks", "10"), c("PEXPIRE", "kl", "10"), c("EXPIRE", "kh", "150", "GT"), c("EXPIRE", "kz", "1", "LT"),
 		c("SET", "ks", "w"), c("SET", "ks", "w", "KEEPTTL"), c("APPEND", "ks", "x"), c("INCR", "ks"), c("RPUSH", "kl", "z"), c("HSET", "kh", "z", "1"), c("SADD", "kz", "z"), c("RENAME", "ks", "kd"), c("COPY", "kl", "kd", "REPLACE"),
 		c("SUNIONSTORE", "kz", "kz", "kz"), c("GETSET", "ks", "w"), c("MSET", "ks", "w"), c("BITOP", "OR", "ks", "ks", "ks"), c("SETRANGE", "ks", "0", "Z"), c("LSET", "kl", "0", "z"),
+	}
+	// expired-but-stored keys in a key space with a removal history: r keys deleted before, then four keys'
+	// deadlines pass; whatever reclaims them (and may resize the table doing so) must not hide a live key
+	for r := 0; r <= 44; r++ {
+		if tier != "thorough" && r%2 == 1 && r > 24 {
+			continue
+		}
+		var h []Op
+		for i := 0; i < 48; i++ {
+			h = append(h, c("SET", "x"+itoa(i), itoa(i)))
+		}
+		del := []string{"DEL"}
+		for i := 0; i < r; i++ {
+			del = append(del, "x"+itoa(i))
+			if len(del) == 9 || i == r-1 {
+				h = append(h, Op{Args: del})
+				del = []string{"DEL"}
+			}
+		}
+		for i := 44; i < 48; i++ {
+			h = append(h, c("PEXPIRE", "x"+itoa(i), "1"))
+		}
+		h = append(h, Op{Args: []string{"PING"}, Advance: 5}, c("DBSIZE"), c("SCAN", "0", "COUNT", "1000"), c("RANDOMKEY"), c("EXISTS", "x45", "x46"), c("SET", "x45", "again"), c("PING"))
+		s.Long = append(s.Long, h)
+	}
+	// the same in a small table with a chosen layout (names picked by the dictionary's own bucket mapping):
+	// a pair in adjacent buckets pins the table at 32, one of the pair is deleted (the table is reducible now),
+	// r removals accumulate, live keys sit behind a key whose deadline then passes
+	nameAt := func(prefix string, bucket uint32) string {
+		for i := 0; i < 200000; i++ {
+			if n := prefix + itoa(i); redisemu.VBucket(n, 32) == bucket {
+				return n
+			}
+		}
+		return prefix
+	}
+	for _, dyingAt := range []uint32{16, 2, 9} {
+		for r := 0; r <= 22; r++ {
+			if tier != "thorough" && dyingAt != 16 && r%3 != 0 {
+				continue
+			}
+			keep, twin, temp, dying := nameAt("keep", 0), nameAt("twin", 1), nameAt("temp", 4), nameAt("dying", dyingAt)
+			h := []Op{c("SET", keep, "v"), c("SET", twin, "v"), c("DEL", twin)}
+			for k := 0; k < r; k++ {
+				h = append(h, c("SET", temp, "t"), c("DEL", temp))
+			}
+			for _, bkt := range []uint32{18, 20, 22, 24, 6, 12} {
+				h = append(h, c("SET", nameAt("live", bkt), "v"))
+			}
+			h = append(h, c("EXPIRE", nameAt("live", 20), "1000"), c("SET", dying, "v", "PX", "5"), Op{Args: []string{"PING"}, Advance: 30}, c("DBSIZE"), c("SCAN", "0", "COUNT", "1000"), c("SET", "after", "1"), c("DEL", "after"), c("PING"))
+			s.Long = append(s.Long, h)
+		}
 	}
 	s.Depth = 1
 	if tier == "thorough" {
